@@ -151,6 +151,18 @@ func TestC17Concurrent(t *testing.T) {
 		rounds = 200
 	}
 	seed := uint32(evid.Seed())
+	// entries that have expired but are still physically stored: the first
+	// reads after expiry happen concurrently in every round (one shared sleep)
+	expired := make([][]string, rounds)
+	for round := range expired {
+		base := c17Keys()[0]
+		for i := 0; i < 48; i++ {
+			k := fmt.Sprintf("%s-exp%d", base, i)
+			expired[round] = append(expired[round], k)
+			execHandler(h, wire.Cmd{Kind: wire.Set, Key: k, Value: []byte("soon gone"), Exptime: 1}, 0)
+		}
+	}
+	time.Sleep(2100 * time.Millisecond)
 	for round := 0; round < rounds; round++ {
 		g := []int{2, 4, 8, 16, 32}[round%5]
 		shared := c17Keys()
@@ -164,6 +176,18 @@ func TestC17Concurrent(t *testing.T) {
 				defer wg.Done()
 				priv := fmt.Sprintf("%s-priv%d", shared[0], w)
 				x := seed*7919 + uint32(round*131+w)
+				for i, k := range expired[round] {
+					// every goroutine reads every expired entry, alternating the read flavour
+					var res hres
+					if (i+w)%2 == 0 {
+						res, _ = execHandler(h, wire.Cmd{Kind: wire.Get, Keys: []string{k, priv}}, 0)
+					} else {
+						res, _ = execHandler(h, wire.Cmd{Kind: wire.GetE, Keys: []string{k}}, 0)
+					}
+					if res.Err != nil || res.Hits[0] != nil {
+						bad.Store(fmt.Sprintf("goroutine %d: expired key %q served: %+v", w, k, res))
+					}
+				}
 				for i := 0; i < 300; i++ {
 					x = x*1664525 + 1013904223
 					r := (x >> 16) % 10
